@@ -1,5 +1,4 @@
-\* the mechanism as the code has it: what it does guarantee (D2, D3, the queue bounds, the exact shape of what a
-\* late response re-creates, crashes only through the preempted response handler)
+\* mechanism as the code has it with retrievals of data chunks interleaved
 SPECIFICATION MCSpec
 CONSTANTS
   PullMax = 3
@@ -10,6 +9,5 @@ CONSTANTS
   MCTopos <- QuickTopos
   AsIs = TRUE
 CONSTRAINT Bound
-ACTION_CONSTRAINT NoRetrieve
 INVARIANTS TypeOK D1Pulling D2 D3 D4AsIs KeysAgree CrashOnlyWhenResumed
 CHECK_DEADLOCK FALSE
